@@ -46,7 +46,7 @@ SCHEMA = {"m": [], "a": [("c", 12), ("k", 3), ("exit", 5), ("fault", 3)]}
 def BOUNDS(tier):
     if tier == "quick":
         return {"full_product_nodes": 2, "deviation_bounded": [[3, 4], [4, 2]]}
-    return {"full_product_nodes": 3, "deviation_bounded": [[4, 4], [5, 3], [6, 2]]}
+    return {"full_product_nodes": 2, "deviation_bounded": [[3, 6], [4, 4], [5, 3], [6, 2]]}
 
 
 def units(tier):
